@@ -106,14 +106,27 @@ def rel (base targ : Bytes) : Option Bytes := (relP (cleanP base) (cleanP targ))
 /-- does the relative path leave its base: `rel == ".." || strings.HasPrefix(rel, "../")` -/
 def escapes (r : Bytes) : Bool := r = dd ∨ r.take 3 = dd ++ [slash]
 
-/-- `DirectoryBackend.osPath` as repaired: the joined, cleaned path must not leave the root. -/
-def osPath (root p : Bytes) : Out Bytes :=
-  match joinP root (replaceSeps p) with
+/-- join a (key) path to a root and refuse it when the joined, cleaned path leaves the root:
+`full := filepath.Join(root, p); rel, err := filepath.Rel(root, full); err != nil || rel == ".." ||
+strings.HasPrefix(rel, "../")` – the check of `DirectoryBackend.osPath` (after `pathSeparators.Replace`)
+and of `KeyBackuper.Import`'s `isInsideFolder` (v1, repair 52). -/
+def containedJoin (root p : Bytes) : Out Bytes :=
+  match joinP root p with
   | none => .err          -- empty root and empty path: Rel("", "") = "." is fine in Go, but Acra never has an empty root; conservative
   | some full =>
     match relP (cleanP root) full with
     | none => .err
     | some r => if escapes (joinSlash r) then .err else .ok (render full)
+
+/-- `DirectoryBackend.osPath` as repaired: the joined, cleaned path must not leave the root. -/
+def osPath (root p : Bytes) : Out Bytes := containedJoin root (replaceSeps p)
+
+/-- where `KeyBackuper.Import` (v1) writes the key named `name` of a bundle into the key folder `root`:
+refused when `isInsideFolder(root, name)` is false, else `filepath.Join(root, name)` -/
+def importPath (root name : Bytes) : Out Bytes := containedJoin root name
+
+/-- `KeyBackuper.Import` on the pinned tree: `filepath.Join(root, name)` unchecked -/
+def importPathPinned (root name : Bytes) : Bytes := join2 root name
 
 /-- `DirectoryBackend.osPath` on the pinned tree: `fullPath != filepath.Clean(fullPath)` can never
 hold because `filepath.Join` already cleans – every path is accepted. -/
